@@ -667,7 +667,59 @@ fn converted_key_containers(i: &Input) -> Outcome {
     eq("Auth::compute (key = HeapByteArray::from([u8; 32]))", &wanta, &mac)
 }
 
+/// k, n, ska, skb, m, tail: keys and nonces handed to the object API as BORROWED SLICES `&[u8]` of a longer buffer (the
+/// key bytes followed by `tail`) that lives in a Vec, in heap bytes or in locked memory: whatever holds the buffer, only
+/// its leading bytes are the key -- the result equals libsodium's on the leading bytes and the one obtained with the
+/// fixed-length locked containers.
+fn borrowed_slice_containers(i: &Input) -> Outcome {
+    use dryoc::dryocbox::protected::LockedBox as PkLockedBox;
+    use dryoc::dryocbox::DryocBox;
+    use dryoc::dryocsecretbox::protected::LockedBox;
+    use dryoc::dryocsecretbox::DryocSecretBox;
+    let (k, n, m, tail) = (i.arr::<32>("k"), i.arr::<24>("n"), i.get("m"), i.get("tail"));
+    let (ska, skb) = (i.arr::<32>("ska"), i.arr::<32>("skb"));
+    let (pka, pkb) = (so::scalarmult_base(&ska), so::scalarmult_base(&skb));
+    let long = |head: &[u8]| -> Vec<u8> { [head, tail].concat() };
+    let how = format!("{} trailing bytes", tail.len());
+
+    let wire = so::secretbox_easy(m, &n, &k);
+    let (kv, nv) = (long(&k), long(&n));
+    let (kh, nh) = (HeapBytes::from(&kv[..]), HeapBytes::from(&nv[..]));
+    let (kl, nl) = (lkb(&kv)?, rob(&nv)?);
+    let variants: [(&str, &[u8], &[u8]); 3] = [
+        ("slices of a Vec", &kv, &nv),
+        ("slices of HeapBytes", kh.as_slice(), nh.as_slice()),
+        ("slices of locked / read-only locked HeapBytes", kl.as_slice(), nl.as_slice()),
+    ];
+    for (name, ks, ns) in variants {
+        let b: LockedBox = DryocSecretBox::encrypt(m, &ns, &ks);
+        eq(&format!("DryocSecretBox::encrypt -> LockedBox, key and nonce as {} ({})", name, how), &wire, &b.to_vec())?;
+        let p: LockedBytes = must_ok(b.decrypt(&ns, &ks), &format!("LockedBox::decrypt, key and nonce as {} ({})", name, how))?;
+        eq(&format!("LockedBox::decrypt plaintext, key and nonce as {}", name), m, p.as_slice())?;
+    }
+    let b: LockedBox = DryocSecretBox::encrypt(m, &lk(&n)?, &lk(&k)?);
+    eq("DryocSecretBox::encrypt -> LockedBox (fixed-length locked key and nonce)", &wire, &b.to_vec())?;
+
+    let wire = so::box_easy(m, &n, &pkb, &ska).expect("honest keys");
+    let (pkbv, skav, pkav, skbv) = (long(&pkb), long(&ska), long(&pka), long(&skb));
+    let (pkbl, skal, pkal, skbl) = (lkb(&pkbv)?, lkb(&skav)?, rob(&pkav)?, rob(&skbv)?);
+    let (npk, nsk, nn): (&[u8], &[u8], &[u8]) = (pkbl.as_slice(), skal.as_slice(), nl_as(&nv));
+    let b: PkLockedBox = must_ok(DryocBox::encrypt(m, &nn, &npk, &nsk), "DryocBox::encrypt (slices of locked buffers)")?;
+    eq(&format!("DryocBox::encrypt -> LockedBox, nonce and keys as slices of locked buffers ({})", how), &wire, &b.to_vec())?;
+    let (rpk, rsk): (&[u8], &[u8]) = (pkal.as_slice(), skbl.as_slice());
+    let p: LockedBytes = must_ok(b.decrypt(&nn, &rpk, &rsk), &format!("LockedBox::decrypt, nonce and keys as slices of read-only locked buffers ({})", how))?;
+    eq("LockedBox::decrypt plaintext (slices of read-only locked buffers)", m, p.as_slice())?;
+    let (vpk, vsk): (&[u8], &[u8]) = (&pkbv, &skav);
+    let b: PkLockedBox = must_ok(DryocBox::encrypt(m, &nn, &vpk, &vsk), "DryocBox::encrypt (slices of Vecs)")?;
+    eq(&format!("DryocBox::encrypt -> LockedBox, keys as slices of Vecs ({})", how), &wire, &b.to_vec())
+}
+
+fn nl_as(v: &[u8]) -> &[u8] {
+    v
+}
+
 pub const C18: Registry = &[
+    ("borrowed_slice_containers", borrowed_slice_containers),
     ("heap_conversions", heap_conversions),
     ("converted_key_containers", converted_key_containers),
     ("clone_containers", clone_containers),
@@ -700,6 +752,20 @@ pub fn c18(ctx: &mut Ctx) -> Search {
         let b = rng2.bytes(*len);
         ctx.run("heap_conversions", Input::new().b("bytes", &b))?;
     }
+    // keys / nonces as borrowed slices of longer buffers held in Vec / heap / locked memory (own generator state)
+    {
+        let mut rng3 = Rng::new(0xB0220 + t as u64);
+        let tls: Vec<usize> = if t { vec![0, 1, 8, 32, 100, 4096] } else { vec![0, 1, 8, 32] };
+        for (j, tl) in tls.into_iter().enumerate() {
+            let mlen = [0usize, 1, 33, 257, 4097, 64][j % 6];
+            let (k, n, ska, skb) = (rng3.arr::<32>(), rng3.arr::<24>(), rng3.arr::<32>(), rng3.arr::<32>());
+            let (m, tail) = (rng3.bytes(mlen), rng3.bytes(tl));
+            ctx.run(
+                "borrowed_slice_containers",
+                Input::new().b("k", &k).b("n", &n).b("ska", &ska).b("skb", &skb).b("m", &m).b("tail", &tail),
+            )?;
+        }
+    }
     let rounds = if t { 24 } else { 4 };
     for r in 0..rounds {
         {
@@ -724,6 +790,223 @@ pub fn c18(ctx: &mut Ctx) -> Search {
         let salt = ctx.rng.arr::<16>();
         let outlen = [32u64, 16, 64, 33][r % 4];
         ctx.run("pwhash_containers", Input::new().b("pw", &pw).b("salt", &salt).u("outlen", outlen))?;
+    }
+    Ok(())
+}
+
+// ======================================================================
+// C11 (nightly flavour) -- every randomised constructor of the heap / locked / read-only locked containers and of the
+// object APIs' protected aliases draws fresh randomness on every call: no all-zero value, no repeats over N calls, no
+// constant byte position.  The stable cases of `misc::C11` run in this flavour too (see main.rs).
+// ======================================================================
+
+use crate::misc::fresh;
+
+fn n_of(i: &Input) -> usize {
+    i.num("n").max(2) as usize
+}
+
+fn os<T>(r: Result<T, std::io::Error>, what: &str) -> T {
+    match r {
+        Ok(v) => v,
+        Err(e) => panic!("{} {} refused by the OS: {}", HARNESS, what, e),
+    }
+}
+
+macro_rules! nfresh1 {
+    ($fname:ident, $what:expr, $body:expr) => {
+        fn $fname(i: &Input) -> Outcome {
+            let samples: Vec<Vec<u8>> = (0..n_of(i)).map(|_| -> Vec<u8> { $body }).collect();
+            fresh($what, &samples)
+        }
+    };
+}
+macro_rules! nfresh2 {
+    ($fname:ident, $what:expr, $a:expr, $b:expr, $body:expr) => {
+        fn $fname(i: &Input) -> Outcome {
+            let (x, y): (Vec<Vec<u8>>, Vec<Vec<u8>>) = (0..n_of(i)).map(|_| -> (Vec<u8>, Vec<u8>) { $body }).unzip();
+            fresh(concat!($what, " ", $a), &x)?;
+            fresh(concat!($what, " ", $b), &y)
+        }
+    };
+}
+
+/// The four randomised constructors of a fixed-length heap array of N bytes.
+fn heap_array_gens<const N: usize>(i: &Input) -> Outcome {
+    let n = n_of(i);
+    let s: Vec<Vec<u8>> = (0..n).map(|_| HeapByteArray::<N>::gen().as_slice().to_vec()).collect();
+    fresh(&format!("HeapByteArray::<{}>::gen", N), &s)?;
+    let s: Vec<Vec<u8>> = (0..n).map(|_| Locked::<HeapByteArray<N>>::gen().as_slice().to_vec()).collect();
+    fresh(&format!("Locked::<HeapByteArray<{}>>::gen", N), &s)?;
+    let s: Vec<Vec<u8>> = (0..n).map(|_| os(HeapByteArray::<N>::gen_locked(), "gen_locked").as_slice().to_vec()).collect();
+    fresh(&format!("HeapByteArray::<{}>::gen_locked", N), &s)?;
+    let s: Vec<Vec<u8>> = (0..n).map(|_| os(HeapByteArray::<N>::gen_readonly_locked(), "gen_readonly_locked").as_slice().to_vec()).collect();
+    fresh(&format!("HeapByteArray::<{}>::gen_readonly_locked", N), &s)
+}
+
+/// len: 8, 16, 24, 32 or 64
+fn r_heap_array_gens(i: &Input) -> Outcome {
+    match i.num("len") {
+        8 => heap_array_gens::<8>(i),
+        16 => heap_array_gens::<16>(i),
+        24 => heap_array_gens::<24>(i),
+        32 => heap_array_gens::<32>(i),
+        64 => heap_array_gens::<64>(i),
+        l => panic!("{} unsupported array length {}", HARNESS, l),
+    }
+}
+
+/// One protected alias (a `HeapByteArray<N>` under a module-specific name): gen, gen_locked, gen_readonly_locked.
+macro_rules! alias_gens {
+    ($fname:ident, $ty:ty, $name:expr) => {
+        fn $fname(i: &Input) -> Outcome {
+            let n = n_of(i);
+            let s: Vec<Vec<u8>> = (0..n).map(|_| <$ty>::gen().as_slice().to_vec()).collect();
+            fresh(concat!($name, "::gen"), &s)?;
+            let s: Vec<Vec<u8>> = (0..n).map(|_| os(<$ty>::gen_locked(), "gen_locked").as_slice().to_vec()).collect();
+            fresh(concat!($name, "::gen_locked"), &s)?;
+            let s: Vec<Vec<u8>> =
+                (0..n).map(|_| os(<$ty>::gen_readonly_locked(), "gen_readonly_locked").as_slice().to_vec()).collect();
+            fresh(concat!($name, "::gen_readonly_locked"), &s)
+        }
+    };
+}
+alias_gens!(r_p_secretbox_key, dryoc::dryocsecretbox::protected::Key, "dryocsecretbox::protected::Key");
+alias_gens!(r_p_secretbox_nonce, dryoc::dryocsecretbox::protected::Nonce, "dryocsecretbox::protected::Nonce");
+alias_gens!(r_p_box_nonce, dryoc::dryocbox::protected::Nonce, "dryocbox::protected::Nonce");
+alias_gens!(r_p_box_secretkey, dryoc::dryocbox::protected::SecretKey, "dryocbox::protected::SecretKey");
+alias_gens!(r_p_stream_key, dryoc::dryocstream::protected::Key, "dryocstream::protected::Key");
+alias_gens!(r_p_stream_nonce, dryoc::dryocstream::protected::Nonce, "dryocstream::protected::Nonce");
+alias_gens!(r_p_auth_key, dryoc::auth::protected::Key, "auth::protected::Key");
+alias_gens!(r_p_onetimeauth_key, dryoc::onetimeauth::protected::Key, "onetimeauth::protected::Key");
+alias_gens!(r_p_generichash_key, dryoc::generichash::protected::Key, "generichash::protected::Key");
+alias_gens!(r_p_kdf_key, dryoc::kdf::protected::Key, "kdf::protected::Key");
+alias_gens!(r_p_kdf_context, dryoc::kdf::protected::Context, "kdf::protected::Context");
+alias_gens!(r_p_kx_secretkey, dryoc::kx::protected::SecretKey, "kx::protected::SecretKey");
+alias_gens!(r_p_sign_secretkey, dryoc::sign::protected::SecretKey, "sign::protected::SecretKey");
+
+nfresh2!(r_box_locked_keypair, "KeyPair::gen_locked_keypair", "public key", "secret key", {
+    let kp = os(dryoc::dryocbox::protected::LockedKeyPair::gen_locked_keypair(), "gen_locked_keypair");
+    (kp.public_key.as_slice().to_vec(), kp.secret_key.as_slice().to_vec())
+});
+nfresh2!(r_box_readonly_locked_keypair, "KeyPair::gen_readonly_locked_keypair", "public key", "secret key", {
+    let kp = os(dryoc::dryocbox::protected::LockedROKeyPair::gen_readonly_locked_keypair(), "gen_readonly_locked_keypair");
+    (kp.public_key.as_slice().to_vec(), kp.secret_key.as_slice().to_vec())
+});
+nfresh2!(r_box_keypair_gen_locked_containers, "KeyPair::<Locked, Locked>::gen", "public key", "secret key", {
+    let kp = dryoc::keypair::KeyPair::<Locked<HeapByteArray<32>>, Locked<HeapByteArray<32>>>::gen();
+    (kp.public_key.as_slice().to_vec(), kp.secret_key.as_slice().to_vec())
+});
+nfresh2!(r_box_keypair_gen_heap_containers, "KeyPair::<Heap, Heap>::gen", "public key", "secret key", {
+    let kp = dryoc::keypair::KeyPair::<HeapByteArray<32>, HeapByteArray<32>>::gen();
+    (kp.public_key.as_slice().to_vec(), kp.secret_key.as_slice().to_vec())
+});
+nfresh2!(r_sign_locked_keypair, "SigningKeyPair::gen_locked_keypair", "public key", "secret key", {
+    let kp = os(dryoc::sign::protected::LockedSigningKeyPair::gen_locked_keypair(), "gen_locked_keypair");
+    (kp.public_key.as_slice().to_vec(), kp.secret_key.as_slice().to_vec())
+});
+nfresh2!(r_sign_readonly_locked_keypair, "SigningKeyPair::gen_readonly_locked_keypair", "public key", "secret key", {
+    let kp = os(
+        dryoc::sign::SigningKeyPair::<LockedRO<HeapByteArray<32>>, LockedRO<HeapByteArray<64>>>::gen_readonly_locked_keypair(),
+        "gen_readonly_locked_keypair",
+    );
+    (kp.public_key.as_slice().to_vec(), kp.secret_key.as_slice().to_vec())
+});
+nfresh2!(r_sign_keypair_gen_locked_containers, "SigningKeyPair::<Locked, Locked>::gen", "public key", "secret key", {
+    let kp = dryoc::sign::SigningKeyPair::<Locked<HeapByteArray<32>>, Locked<HeapByteArray<64>>>::gen();
+    (kp.public_key.as_slice().to_vec(), kp.secret_key.as_slice().to_vec())
+});
+nfresh2!(r_kdf_gen_locked, "LockedKdf::gen", "main key", "context", {
+    let (k, c) = dryoc::kdf::protected::LockedKdf::gen().into_parts();
+    (k.as_slice().to_vec(), c.as_slice().to_vec())
+});
+nfresh2!(r_kdf_gen_heap, "Kdf::<Heap, Heap>::gen", "main key", "context", {
+    let (k, c) = dryoc::kdf::Kdf::<HeapByteArray<32>, HeapByteArray<8>>::gen().into_parts();
+    (k.as_slice().to_vec(), c.as_slice().to_vec())
+});
+nfresh1!(r_stream_header_locked, "DryocStream::init_push header (locked header container, read-only locked key)", {
+    use dryoc::dryocstream::DryocStream;
+    let key = os(dryoc::dryocstream::protected::Key::gen_locked().and_then(|k| k.mprotect_readonly()), "gen_locked + mprotect_readonly");
+    let (_s, h): (_, Locked<HeapByteArray<24>>) = DryocStream::init_push(&key);
+    h.as_slice().to_vec()
+});
+nfresh1!(r_seal_epk_locked, "LockedBox seal ephemeral public key", {
+    use dryoc::dryocbox::protected::LockedBox;
+    use dryoc::dryocbox::DryocBox;
+    let pk = crate::so::scalarmult_base(&[9u8; 32]);
+    let b: LockedBox = DryocBox::seal(&b"abc"[..], &pk).expect("seal");
+    b.to_vec()[..32].to_vec()
+});
+
+/// One key, one plaintext, a "random" read-only locked nonce per message: the ciphertexts must all differ (a repeated
+/// nonce under one key is the catastrophic failure fresh nonces exist to prevent).
+fn r_secretbox_nonce_use(i: &Input) -> Outcome {
+    use dryoc::dryocsecretbox::protected::{Key, LockedBox, Nonce};
+    use dryoc::dryocsecretbox::DryocSecretBox;
+    let key = os(Key::gen_locked(), "gen_locked");
+    let mut seen: Vec<Vec<u8>> = Vec::new();
+    for call in 0..n_of(i) {
+        let nonce = os(Nonce::gen_readonly_locked(), "gen_readonly_locked");
+        let b: LockedBox = DryocSecretBox::encrypt(&b"attack at dawn"[..], &nonce, &key);
+        let c = b.to_vec();
+        if let Some(prev) = seen.iter().position(|x| *x == c) {
+            return fail(
+                "a different ciphertext for every message (fresh nonce per message)",
+                hex(&c),
+                format!(
+                    "messages #{} and #{} were encrypted under the same key and the same nonce {} obtained from Nonce::gen_readonly_locked",
+                    prev,
+                    call,
+                    hex(nonce.as_slice())
+                ),
+            );
+        }
+        seen.push(c);
+    }
+    Ok(())
+}
+
+pub const C11: Registry = &[
+    ("heap_array_gens", r_heap_array_gens),
+    ("protected_secretbox_key_gens", r_p_secretbox_key),
+    ("protected_secretbox_nonce_gens", r_p_secretbox_nonce),
+    ("protected_box_nonce_gens", r_p_box_nonce),
+    ("protected_box_secretkey_gens", r_p_box_secretkey),
+    ("protected_stream_key_gens", r_p_stream_key),
+    ("protected_stream_nonce_gens", r_p_stream_nonce),
+    ("protected_auth_key_gens", r_p_auth_key),
+    ("protected_onetimeauth_key_gens", r_p_onetimeauth_key),
+    ("protected_generichash_key_gens", r_p_generichash_key),
+    ("protected_kdf_key_gens", r_p_kdf_key),
+    ("protected_kdf_context_gens", r_p_kdf_context),
+    ("protected_kx_secretkey_gens", r_p_kx_secretkey),
+    ("protected_sign_secretkey_gens", r_p_sign_secretkey),
+    ("box_locked_keypair", r_box_locked_keypair),
+    ("box_readonly_locked_keypair", r_box_readonly_locked_keypair),
+    ("box_keypair_gen_locked_containers", r_box_keypair_gen_locked_containers),
+    ("box_keypair_gen_heap_containers", r_box_keypair_gen_heap_containers),
+    ("sign_locked_keypair", r_sign_locked_keypair),
+    ("sign_readonly_locked_keypair", r_sign_readonly_locked_keypair),
+    ("sign_keypair_gen_locked_containers", r_sign_keypair_gen_locked_containers),
+    ("kdf_gen_locked", r_kdf_gen_locked),
+    ("kdf_gen_heap", r_kdf_gen_heap),
+    ("dryocstream_init_push_header_locked", r_stream_header_locked),
+    ("dryocbox_seal_ephemeral_key_locked", r_seal_epk_locked),
+    ("secretbox_readonly_locked_nonce_use", r_secretbox_nonce_use),
+];
+
+/// Stable cases first (same binary, dryoc built with its nightly feature), then the protected-memory constructors.
+pub fn c11(ctx: &mut Ctx) -> Search {
+    crate::misc::c11(ctx)?;
+    let n = if ctx.thorough { 512 } else { 64 };
+    for len in [8u64, 16, 24, 32, 64] {
+        ctx.run("heap_array_gens", Input::new().u("n", n).u("len", len))?;
+    }
+    for (name, _) in C11 {
+        if *name == "heap_array_gens" {
+            continue;
+        }
+        ctx.run(name, Input::new().u("n", n))?;
     }
     Ok(())
 }
